@@ -22,6 +22,12 @@ def B(src, name, cfg="S20d", quick=8, thorough=60, params="", rt=(), oracles=(),
 WORKLOADS = {
     "stop_basic": ("w_stop.cpp", ()),
     "stop_adapter": ("w_stop.cpp", ()),
+    "sched_manual": ("w_sched.cpp", ()),
+    "sched_single": ("w_sched.cpp", ()),
+    "sched_pool": ("w_sched.cpp", ()),
+    "sched_timed": ("w_sched.cpp", ()),
+    "sched_newthread": ("w_sched.cpp", ()),
+    "sched_trampoline": ("w_sched.cpp", ()),
 }
 
 PROPS = {
@@ -42,5 +48,28 @@ PROPS = {
         real=["unifex::inplace_stop_source/token/callback (source/inplace_stop_token.cpp)", "inplace_stop_token_adapter(_subscription)",
               "fused_stop_source", "spin_wait", "libstdc++ std::thread above pthread_create"],
         stub=["pthread_create/join, sched_yield (usim)", "heap (usim arena)", "kit::sim_stop_source (harness third-party token)"],
+    ),
+    "C06": dict(
+        title="Schedulers lose nothing and run on their own context",
+        batches=[
+            B("w_sched.cpp", "sched_manual", quick=6, thorough=90, oracles=["c06."] + RT_ALL),
+            B("w_sched.cpp", "sched_single", quick=5, thorough=60, oracles=["c06."] + RT_ALL),
+            B("w_sched.cpp", "sched_pool", quick=6, thorough=90, oracles=["c06."] + RT_ALL),
+            B("w_sched.cpp", "sched_timed", quick=5, thorough=60, oracles=["c06."] + RT_ALL),
+            B("w_sched.cpp", "sched_newthread", quick=4, thorough=60, oracles=["c06."] + RT_ALL),
+            B("w_sched.cpp", "sched_trampoline", quick=3, thorough=30, oracles=["c06."] + RT_ALL),
+            B("w_sched.cpp", "sched_pool", cfg="S17r", quick=4, thorough=45, oracles=["c06."] + RT_ALL),
+        ],
+        level_text=("Seeded exploration of schedules and faults (spurious condition-variable wake-ups, spurious weak-CAS failures, clock jitter) "
+                    "over the real execution contexts: 1-4 producer threads start 1-9 schedule() operations each (some with a stop request before "
+                    "start, right after start, or later) while the context's workers run, go idle, wake up and are told to stop after the last "
+                    "start() returned. Oracles: exactly one completion per item, completion on a thread of the context, done only after a stop "
+                    "request and value never after a stop requested before start, nothing lost (deadlock detection and end-of-run census), FIFO on "
+                    "single-threaded loops, trampoline nesting depth and drain, destructor joins every thread, no touch of a freed op state."),
+        level_note=("Trusted: usim stubs for pthread mutex/condvar/create/join and the clock; sequential consistency; sampling. thread_unsafe_event_loop "
+                    "is covered by the C07 check (it is a timer loop)."),
+        real=["manual_event_loop", "single_thread_context", "static_thread_pool", "timed_single_thread_context", "new_thread_context",
+              "trampoline_scheduler", "inline_scheduler", "inplace_stop_source", "libstdc++ std::thread/std::mutex/std::condition_variable wrappers"],
+        stub=["pthread mutex/cond/create/join (usim)", "clock_gettime (simulated clock)", "heap (usim arena)"],
     ),
 }
